@@ -27,6 +27,10 @@
 //             dimension-changing operators leave the `reduced' flag set although their result need not be reduced
 //             (e.g. (P, B) reduced, then unconstrain x0: P' implies x1 <= 0, B' is the universe): OK() is false and
 //             later observers never reduce again.  Check q.OK.  Guard: objects whose flag survived such an operator.
+//   KF-C10-5  (base level, shows through the product) Box::relation_with(const Congruence&) mis-computes the
+//             representative of a proper congruence when the expression is negative on the box
+//             (box {x = 2}, -3x - 2 = 0 (mod 4): IS_DISJOINT although -8 = 0 (mod 4)); the product ORs the claims.
+//             Checks q.relation_with_congruence.disjoint / .included.  Guard: Box pairs, proper congruences.
 #include "poly_common.hh"
 #include "reflattice_x.hh"
 #include <type_traits>
@@ -179,7 +183,7 @@ struct Prog {
       }
     }
     c.check("reduce.component_grew", comp_included(after.a, before.a) && comp_included(after.b, before.b), [&] { return w + ": a component grew: before " + before.show() + " after " + after.show(); });
-    if (!before.a.universe() && !before.b.universe() && comps_differ(before, after)) { ++changed_by_reduction; c.tag("reduction changed a component"); }
+    if (!before.a.universe() && !before.b.universe() && comps_differ(before, after)) { ++changed_by_reduction; c.tag("reduction changed a component"); c.tag("reduction changed a component: " + name); }
     o.s = after;
   }
 
@@ -216,6 +220,15 @@ struct Prog {
     if (!hostile) fix_con(k, w);
     return k;
   }
+  // lo <= d*x_i (+- x_j) <= hi around the witness, in halves: bounded directions make the congruence-based reductions fire
+  std::vector<RCon> gen_interval(size_t n, const std::vector<long>& w) {
+    std::vector<RCon> out; size_t i = t.range(0, (long) n - 1); LE base(n); base.a[i] = 2;
+    if (n >= 2 && t.chance(30)) { size_t j = (i + 1 + t.range(0, (long) n - 2)) % n; base.a[j] = t.chance(50) ? 2 : -2; }
+    mpz_class v = base.eval(w); long d1 = t.range(0, 5), d2 = t.range(0, 5);
+    RCon lo; lo.e = base; lo.e.b = -v + d1; lo.kind = 1;                                   // base - (v - d1) >= 0
+    RCon hi; hi.e = LE(n); for (size_t k = 0; k < n; ++k) hi.e.a[k] = -base.a[k]; hi.e.b = v + d2; hi.kind = 1;   // (v + d2) - base >= 0
+    out.push_back(lo); out.push_back(hi); return out;
+  }
   RCg gen_cg(size_t n, const std::vector<long>& w, bool hostile) {
     RCg g; g.e = LE(n); g.m = t.pick(std::vector<long>{2, 2, 3, 1, 4, 0});
     int form = t.weighted({50, 50});
@@ -249,6 +262,8 @@ struct Prog {
     else {
       c.log << "  new(dim " << n << ", UNIVERSE) refined with";
       int m1 = (int) t.range(0, 3), m2 = (int) t.range(0, G ? 2 : 1);
+      int boxes = (int) t.weighted({45, 35, 20});
+      for (int i = 0; i < boxes; ++i) { std::vector<RCon> iv = gen_interval(n, incons ? wit2 : wit); for (size_t k = 0; k < iv.size(); ++k) { c.log << " [" << str(iv[k]) << "]"; o.p.refine_with_constraint(to_ppl(iv[k])); } }
       for (int i = 0; i < m2; ++i) { RCg g = gen_cg(n, wit, false); c.log << " [" << str(g) << "]"; o.p.refine_with_congruence(to_ppl(g)); }
       for (int i = 0; i < m1; ++i) { RCon k = gen_c(n, incons ? wit2 : wit, false); c.log << " [" << str(k) << "]"; o.p.refine_with_constraint(to_ppl(k)); }
       c.log << "\n";
@@ -270,6 +285,7 @@ struct Prog {
     int cnt = (int) t.weighted({60, 25, 15}) + 1; std::vector<RCon> cs;
     bool other = t.chance(25);
     for (int i = 0; i < cnt; ++i) cs.push_back(gen_c(n, other ? wit2 : wit, t.chance(12)));
+    if (t.chance(20)) { cs = gen_interval(n, other ? wit2 : wit); cnt = 2; }
     int how = cnt == 1 ? (int) t.weighted({60, 40}) : 2 + (int) t.weighted({50, 25, 25});
     static const char* nm[5] = { "refine_with_constraint", "add_constraint", "refine_with_constraints", "add_constraints", "add_recycled_constraints" };
     c.log << "  " << nm[how] << " " << show_cs(cs);
@@ -553,6 +569,7 @@ struct Prog {
     case 9: { RCg g = gen_cg(n, wit, t.chance(50)); Poly_Con_Relation r = p.relation_with(to_ppl(g)); what = "relation_with(cg)"; std::ostringstream rs; rs << r; c.log << "  ? relation_with " << str(g) << " -> " << rs.str() << "\n";
       bool inc = r.implies(Poly_Con_Relation::is_included()), dis = r.implies(Poly_Con_Relation::is_disjoint());
       Pts m = G ? before.members(100000) : witnesses(before.I);
+      if (BOX && g.m != 0 && kf("KF-C10-5")) { bool bad = false; for (size_t i = 0; i < m.size(); ++i) if ((inc && !cg_holds(g, m[i])) || (dis && cg_holds(g, m[i]))) bad = true; if (bad) { c.excluded("KF-C10-5"); break; } }
       for (size_t i = 0; i < m.size(); ++i) {
         if (inc) c.check("q.relation_with_congruence.included", cg_holds(g, m[i]), [&] { return "is_included claimed for " + str(g) + ", refuted by " + show_pt(m[i]) + ctx(); });
         if (dis) c.check("q.relation_with_congruence.disjoint", !cg_holds(g, m[i]), [&] { return "is_disjoint claimed for " + str(g) + ", refuted by " + show_pt(m[i]) + ctx(); }); }
